@@ -41,7 +41,9 @@ func init() {
 		}
 		return f
 	})
+	large := modelSub(p, "large", compareOpts{}, func(cs *progCase, res *m.Result) bool { return true })
 	p.Run = func(c *Ctx) {
+		runScale(c, large, "C09")
 		idx := 0
 		okAll := true
 		enum := func(L, names int, withUse bool) {
@@ -132,6 +134,7 @@ func init() {
 		return (f["include"] > 0 || f["embed"] > 0) && (f["with"] > 0 || f["only"] > 0 || f["embed"] > 0)
 	})
 	p.Run = func(c *Ctx) {
+		runScale(c, sub, "C10")
 		sub.Rapid(c, c.Share(c.Pick(20000, 800000)), func(t *rapid.T) *progCase {
 			g := &gen.G{T: t, C: gen.Cfg{Calls: true}}
 			return &progCase{P: g.IncludeProgram()}
@@ -162,6 +165,7 @@ func init() {
 		return f["macro-missing-arg"] > 0 || f["macro-surplus-arg"] > 0 || forms >= 2
 	})
 	p.Run = func(c *Ctx) {
+		runScale(c, sub, "C11")
 		// complete grid: parameters 0..4 x arguments 0..6 x the three call forms
 		idx := 0
 		done := true
